@@ -41,7 +41,7 @@ from props import c12, c03_rules
 
 EXTRACTORS = ["Notation", "Errors", "Elab"]
 # further property files of C03: rejection theorems on the parser model and on the `_parse_op` model
-EXTRA_PROPS = ["C03Reject", "C03Elab"]
+EXTRA_PROPS = ["C03Reject", "C03Elab", "C03Grammar"]
 
 OPS_B = ["id", "sum", "add", "dot", "get_at", "argmax", "sort", "solve_axes", "solve_shapes", "matches"]
 SOLVE_FNS = ("solve_axes", "solve_shapes", "matches", "solve", "check")
